@@ -188,7 +188,7 @@ def _inherited_tables(c):
     return out
 
 
-def check_model(blists, defmask, docmask, generic=False):
+def check_model(blists, defmask, docmask, generic=False, hidden=None):
     n = len(blists)
     src = gen_source(blists, defmask, docmask, generic)
     sample(source=src)
@@ -198,7 +198,13 @@ def check_model(blists, defmask, docmask, generic=False):
         exec(compile(src, "<h>", "exec"), ns)
     except TypeError as e:
         pyerr = e
-    s = model.System(OPTS)
+    opts = OPTS
+    if hidden is not None:
+        # a privacy rule hides one class's own definition of m: it must still mask the definitions further along the MRO (seed C05-7)
+        import copy
+        opts = copy.copy(OPTS)
+        opts.privacy = [(model.PrivacyClass.HIDDEN, "h.%s.m" % hidden)]
+    s = model.System(opts)
     msgs = []
     s.msg = lambda section, m, thresh=0, **kw: msgs.append((section, m))
     b = s.systemBuilder(s)
@@ -242,8 +248,8 @@ def check_model(blists, defmask, docmask, generic=False):
         # "Inherited from <the first class along Python's MRO that defines it>"
         inherited_shown = _inherited_tables(c)
         wantinh = {}
-        if "m" not in vars(pc) and wantdef is not None:
-            wantinh = {"m": wantdef}
+        if "m" not in vars(pc) and wantdef is not None and wantdef != hidden:
+            wantinh = {"m": wantdef}          # (a hidden definition is not listed, and nothing behind it is shown in its place)
         if pyerr is None and inherited_shown != wantinh:
             note(why="the 'Inherited from' tables of the class page differ from attribute lookup along the MRO", src=src, cls=nm, got=inherited_shown, want=wantinh)
             return False
@@ -289,7 +295,7 @@ def _parts_model():
     code=["pydoctor.model.compute_mro", "pydoctor.model.Class._init_mro", "pydoctor.model.Class.mro", "pydoctor.model.Class.find",
           "pydoctor.model.Inheritable.docsources", "pydoctor.model.get_docstring", "pydoctor.astbuilder.ModuleVistor.visit_ClassDef",
           "pydoctor.mro.mro", "pydoctor.templatewriter.pages.get_override_info", "pydoctor.templatewriter.util.overriding_subclasses", "pydoctor.templatewriter.pages.ClassPage.baseTables/baseName", "pydoctor.templatewriter.util.class_members"],
-    bounds={"quick": "4 classes: all 160 ordered-base hierarchies x member-definition mask (4 bits) x docstring mask restricted to defmask x generic-subscripted base or not",
+    bounds={"quick": "4 classes: all 160 ordered-base hierarchies x member-definition mask (4 bits) x docstring mask restricted to defmask x generic-subscripted base or not; in two thirds of the layouts a --privacy rule hides the second or third class's own definition of the member (it must keep masking the definitions behind it in the Inherited-from tables)",
             "thorough": "5 classes: all 10 400 hierarchies x 6 member/docstring placements x generic or not"},
     outside="bases outside the module, forward references, metaclasses, >5 classes",
 )
@@ -322,7 +328,9 @@ def h_mro_model(s1: int, s2: int, s3: int, defmask: int, docsel: int, generic: b
     else:
         docmask = defmask & -defmask
     with NoTracing():
-        ok = check_model(blists, defmask, docmask, generic)
+        # one class's definition of m hidden by a --privacy rule, chosen by the layout (no rule / second class / third class)
+        hidden = [None, NAMES[1], NAMES[2]][(defmask + docsel + s2) % 3]
+        ok = check_model(blists, defmask, docmask, generic, hidden)
     return done(ok)
 
 
